@@ -142,8 +142,44 @@ func c12AmfExec(c *core.Ctx, in c12Amf) {
 	if back != txt {
 		k := "amfid|AmfIdToModels|text"
 		c.FailCase(k, fmt.Sprintf("AmfIdToModels(%#x,%d,%d) = %q, want %q", r, s, p, back, txt), "amfid", in)
+		return
+	}
+	// the three parts stored through the GUTI5G / TMSI5GS accessors, in every order, into an empty element, into one
+	// whose AMF octets are all ones and into one that holds the complement identifier: the octets must be the specified
+	// layout and read back as the same parts (a setter that disturbs a part stored before it shows in some order)
+	want := [3]byte{byte(in.ID >> 16), byte(in.ID >> 8), byte(in.ID)}
+	for _, prior := range [3]uint32{0, 0xFFFFFF, ^in.ID & 0xFFFFFF} {
+		for oi, ord := range c12SetterOrders {
+			var g nasType.GUTI5G
+			var t nasType.TMSI5GS
+			g.Octet[4], g.Octet[5], g.Octet[6] = byte(prior>>16), byte(prior>>8), byte(prior)
+			t.Octet[1], t.Octet[2] = byte(prior>>8), byte(prior)
+			for _, f := range ord {
+				switch f {
+				case 0:
+					g.SetAMFRegionID(gr)
+				case 1:
+					g.SetAMFSetID(gs)
+					t.SetAMFSetID(gs)
+				case 2:
+					g.SetAMFPointer(gp)
+					t.SetAMFPointer(gp)
+				}
+			}
+			if g.Octet[4] != want[0] || g.Octet[5] != want[1] || g.Octet[6] != want[2] || g.GetAMFRegionID() != r || g.GetAMFSetID() != s || g.GetAMFPointer() != p {
+				c.FailCase("amfid|GUTI5G-setters|layout", fmt.Sprintf("AMF id %s stored in the order %v over AMF octets %06x: octets %x, want %x (accessors read %#x/%d/%d)", txt, c12SetterOrderNames[oi], prior, g.Octet[4:7], want, g.GetAMFRegionID(), g.GetAMFSetID(), g.GetAMFPointer()), "amfid", in)
+				return
+			}
+			if t.Octet[1] != want[1] || t.Octet[2] != want[2] || t.GetAMFSetID() != s || t.GetAMFPointer() != p {
+				c.FailCase("amfid|TMSI5GS-setters|layout", fmt.Sprintf("AMF set %d / pointer %d stored in the order %v over octets %04x: octets %x, want %x", s, p, c12SetterOrderNames[oi], prior&0xFFFF, t.Octet[1:3], want[1:]), "amfid", in)
+				return
+			}
+		}
 	}
 }
+
+var c12SetterOrders = [6][3]int{{0, 1, 2}, {0, 2, 1}, {1, 0, 2}, {1, 2, 0}, {2, 0, 1}, {2, 1, 0}}
+var c12SetterOrderNames = [6]string{"region,set,pointer", "region,pointer,set", "set,region,pointer", "set,pointer,region", "pointer,region,set", "pointer,set,region"}
 
 func c12GutiExec(c *core.Ctx, in c12Guti) {
 	guardReset()
